@@ -147,10 +147,11 @@ def check_property(pid, tier, seed, relock=False, only=None, jobs=None, verbose=
         reproduced, outp = try_native_replay(f.get("witness"))
         was_locked = locked.get(name) == "discharged"
         rp = write_replay(pid, name, f, {"native_replay": {"reproduced": reproduced, "output": outp}, "was_discharged_on_locked_tree": was_locked})
+        forbidden = agg[name]["kind"] == "forbidden"
         if reproduced:
             lines.append(f"VIOLATION property={pid} replay={rp}")
             exit_code = 1
-        elif was_locked or not locked:
+        elif was_locked or not locked or forbidden:
             lines.append(f"VIOLATION property={pid} replay={rp} obligation={name} no-failing-input-found")
             exit_code = 1
         else:
